@@ -53,6 +53,10 @@ LOCKERS = [
     P('ser_r_refetch_r', r(1, 'x'), ('refetch', 1), r(1, 'x'), serializable=True),
     P('ser_q_rmw_y', ('selq', 'x'), r(1, 'y'), w(1, 'y', 'y'), serializable=True),
     P('imm_rmw_x', r(1, 'x'), w(1, 'x', 'x'), immediate=True),
+    # the db_session goes on after commit(): the lock ended there, locking again must really lock again
+    P('fu_commit_fu_rmw_x', ('getfu', 1, ''), r(1, 'x'), ('commit',), ('getfu', 1, ''), r(1, 'x'), w(1, 'x', 'x')),
+    P('fu_w_commit_fu_rmw_y', ('getfu', 1, ''), r(1, 'x'), w(1, 'x', 'x'), ('commit',), ('getfu', 1, ''), r(1, 'y'), w(1, 'y', 'y')),
+    P('selfu_commit_selfu_rmw_x', ('selfu', 1, ''), r(1, 'x'), ('commit',), ('selfu', 1, ''), r(1, 'x'), w(1, 'x', 'x')),
 ]
 WRITERS = [
     P('rmw_x', r(1, 'x'), w(1, 'x', 'x')),
@@ -97,6 +101,7 @@ def mon_repeatable_under_lock(v, counters):
         locked, first = set(), {}
         for step, d in v.notes[t]:
             if d[0] == 'lock': locked.add(d[1])
+            elif d[0] == 'committed': locked.clear(); first.clear()       # explicit commit(): a new transaction starts
             elif d[0] == 'w': first.pop((d[1], d[2]), None)
             elif d[0] == 'r' and (whole or d[1] in locked):
                 key = (d[1], d[2])
@@ -261,6 +266,8 @@ def pg_transactions(ctx):
     """real PGProvider.set_transaction_mode / Database._exec_sql on a statement-log connection"""
     db, pool = L.pg_database()
     for prog in LOCKERS:
+        if any(op[0] == 'commit' for op in prog['ops']):      # the statement-log connection keeps no data: a re-fetch after commit() sees the old row
+            ctx.count('pg_multi_transaction_programs_skipped'); continue
         res, log, notes = L.run_on_pg(db, pool, prog)
         name = prog['name']
         if res[0] != 'ok':
